@@ -459,7 +459,7 @@ def metamorphic(run: Run, thorough: bool):
                     continue
                 except Exception as e:
                     run.count("fit_variants", "aborted")
-                    if (name == "logging" and kind == "mixture_logistic" and "plot_patient_periodicity" in logs and with_path
+                    if (name == "logging" and kind == "mixture_logistic" and "plot_patient_periodicity" in logs
                             and isinstance(e, RuntimeError) and "same dtype" in str(e)):
                         # listed finding: the mixture model holds float64 parameters, the patient-reconstruction plot estimates with float32 inputs
                         run.fail("logging:plot-patient:mixture-float64-dtype-mismatch",
